@@ -7,7 +7,8 @@ from . import core, meta as M, suite_meta as SM
 THEOREMS = {
     'C03': ['C03.merge_lookup_slice', 'C03.merge_lookup_time', 'C03.merge_lookup_vector',
             'C03.merge_nonslice', 'C03.merge_valid_slice', 'C03.merge_valid_time',
-            'C03.reclassify_lossless', 'C03.changed_class_lossless'],
+            'C03.reclassify_lossless', 'C03.changed_class_lossless',
+            'C03.insert_loops_total', 'C03.merge_slice_total', 'C03.merge_time_total', 'C03.merge_vector_total'],
     'C04': ['C04.subset_lookup_slice_raw', 'C04.subset_lookup_time_raw', 'C04.subset_lookup_vector_raw',
             'C04.subset_slice', 'C04.subset_time4', 'C04.subset_vector', 'C04.simplify_keeps_lookup'],
     'C05': ['C05.split_merge_slice_id', 'C05.split_merge_time_id', 'C05.split_merge_vector_id',
